@@ -754,8 +754,10 @@ struct Counts {
     cases: u64,
     roundtrip_ok: u64,
     receive_attempts: u64,
-    hp_removals: u64,
-    aead_attempts: u64,
+    wrapper_calls: u64,
+    /// receives that re-verify the genuine packet after an unauthenticated key update (their
+    /// number depends on the per-run random keys, so they are kept out of `receive_attempts`)
+    reverifications: u64,
     distinct: u64,
     unauth_key_updates: u64,
     rebuilds: u64,
@@ -769,8 +771,8 @@ impl Counts {
         self.cases += o.cases;
         self.roundtrip_ok += o.roundtrip_ok;
         self.receive_attempts += o.receive_attempts;
-        self.hp_removals += o.hp_removals;
-        self.aead_attempts += o.aead_attempts;
+        self.wrapper_calls += o.wrapper_calls;
+        self.reverifications += o.reverifications;
         self.distinct += o.distinct;
         self.unauth_key_updates += o.unauth_key_updates;
         self.rebuilds += o.rebuilds;
@@ -781,8 +783,7 @@ impl Counts {
     }
     fn rx(&mut self, o: &RxOut) {
         self.receive_attempts += 1;
-        self.hp_removals += o.hp_removals as u64;
-        self.aead_attempts += o.aead_attempts as u64;
+        self.wrapper_calls += o.wrapper_calls as u64;
     }
 }
 
@@ -928,6 +929,9 @@ fn check_roundtrip(case: &Case, live: &Live) -> Result<RxOut, (String, String)> 
         return Err((format!("roundtrip/packet-count/{kind}"), format!("{} packets parsed, {} delivered", out.packets, out.delivered.len())));
     }
     if let Err((what, detail)) = matches_sent(&out.delivered[0], &live.sent) {
+        return Err((format!("roundtrip/{what}/{kind}{scen}"), detail));
+    }
+    if let Err((what, detail)) = check_unmasked(&r.view(), &live.sent) {
         return Err((format!("roundtrip/{what}/{kind}{scen}"), detail));
     }
     Ok(out)
@@ -1098,8 +1102,7 @@ fn run_case(case: &Case, mode: Mode) -> CaseResult {
     match rt {
         Ok(out) => {
             let c = res.c(sub_rt);
-            c.hp_removals += out.hp_removals as u64;
-            c.aead_attempts += out.aead_attempts as u64;
+            c.wrapper_calls += out.wrapper_calls as u64;
             c.roundtrip_ok += 1;
             c.distinct += 1;
             *c.hist.entry(format!("{} pn_len {} -> accepted", case.ptype.name(), live.sent.enc.size())).or_default() += 1;
@@ -1200,7 +1203,7 @@ fn run_case(case: &Case, mode: Mode) -> CaseResult {
                 res.c(sub).unauth_key_updates += 1;
                 if out.verdict == Verdict::Dropped {
                     let again = check_roundtrip(case, &live);
-                    res.c(sub).receive_attempts += 1;
+                    res.c(sub).reverifications += 1;
                     if let Err((sig, detail)) = again {
                         res.found.add(
                             format!("tamper/receiver-state-corrupted/{}", sig.replace('/', ".")),
@@ -1609,8 +1612,8 @@ fn replay_once(case: &Case, tamper: &Tamper) -> i32 {
         }
         Ok((out, changed)) => {
             println!(
-                "replay: outcome {} via {} ({}); {} packet(s) parsed, {} header-protection removal(s), {} AEAD attempt(s); receiver key state changed: {}",
-                out.verdict.name(), out.path, out.why, out.packets, out.hp_removals, out.aead_attempts,
+                "replay: outcome {} via {} ({}); {} packet(s) parsed, {} handed to CipherPacket::decrypt_*; receiver key state changed: {}",
+                out.verdict.name(), out.path, out.why, out.packets, out.wrapper_calls,
                 if matches!(tamper, Tamper::WrongKey { .. }) { "n/a".to_string() } else { changed.to_string() }
             );
             let mut code = 0;
@@ -1668,17 +1671,7 @@ pub fn run(args: &Args) -> i32 {
     }
     report.assume("keys: Initial = rustls::quic::Keys::initial(V1, TLS13_AES_128_GCM_SHA256, RFC 9001 A.1 DCID); Handshake, 0-RTT (resumed session), 1-RTT keys and Secrets from a real in-process rustls (ring) QUIC handshake with /repo/tests/keychain/localhost, fresh per case — key bytes differ from run to run, outcome classes do not");
     report.assume("receiver model: all of its side's keys installed; routing = DCID equality (QuicRouter::find_entry); VN/Retry ignored (RcvdPacketQueue::deliver); pn decoder = PacketNumber::decode(largest received + 1) with no duplicate/too-old hit (RcvdJournal::decode_pn on empty slots); the <1100-byte Initial datagram filter of qtraversal::route is above this layer and not applied");
-    match rx::wrapper_fingerprint() {
-        Ok(h) if h == rx::WRAPPER_FNV => report.assume(
-            "CipherPacket::decrypt_{long,short}_packet (qinterface, not linkable from h-base) replicated statement for statement in c06/rx.rs; source fingerprint of the real functions matches the replicated revision",
-        ),
-        other => {
-            report.caps_hit.push(format!(
-                "qinterface/src/component/route/packet.rs decrypt_* differs from the revision replicated in c06/rx.rs ({other:?} vs {:#x}): the wrapper itself is NOT covered by this run — re-replicate",
-                rx::WRAPPER_FNV
-            ));
-        }
-    }
+    report.assume("receive wrapper: the real qinterface::component::route::CipherPacket::{new, decrypt_long_packet, decrypt_short_packet}; None = dropped, Some(Ok) = accepted, Some(Err) = connection error (callers `.transpose()?` it into Event::Failed)");
     let callers = phase_out_callers();
     let with_no_phase_out = callers.is_empty();
     if with_no_phase_out {
@@ -1779,8 +1772,8 @@ pub fn run(args: &Args) -> i32 {
         let mut extra = Map::new();
         extra.insert("cases".into(), json!(c.cases));
         extra.insert("roundtrip_ok".into(), json!(c.roundtrip_ok));
-        extra.insert("reached_header_protection_removal".into(), json!(c.hp_removals));
-        extra.insert("reached_aead".into(), json!(c.aead_attempts));
+        extra.insert("handed_to_cipher_packet_decrypt".into(), json!(c.wrapper_calls));
+        extra.insert("reverification_receives_after_unauthenticated_key_update".into(), json!(c.reverifications));
         extra.insert("unauthenticated_key_updates_at_receiver".into(), json!(c.unauth_key_updates));
         extra.insert("context_rebuilds".into(), json!(c.rebuilds));
         extra.insert("same_pn_skipped".into(), json!(c.same_pn_skipped));
